@@ -47,6 +47,7 @@ FIXED = [
     ('C07', 'd3acc98', 'F20 JsonCodeGen.genCode called insert() on a str with a custom template', 'C07.R7c'),
     ('C17', '387569b', 'F28 INDEX { 0 } parsed differently with supportIndex', 'C17.R2'),
     ('C07', 'e885599', 'F30 a source text without any module dropped the requested name from the result', 'C07.R4b'),
+    ('C11', 'fb9f725', 'F33 a decimal literal longer than 4300 digits made t_NUMBER raise ValueError', 'C11.R7'),
     ('C10', '121bb88', 'F35 noDeps excluded a requested module served from a differently named file', 'C10.R2'),
 ]
 
